@@ -15,7 +15,7 @@ validates the translators themselves (run by hand; results quoted in DESIGN.md 1
 import os, re, subprocess, sys, tempfile, shutil
 HERE = os.path.dirname(os.path.abspath(__file__))
 sys.path.insert(0, HERE)
-import extract_cmp, extract_bmca, extract_announce, extract_msgs, extract_receipt, extract_portmove
+import extract_cmp, extract_bmca, extract_announce, extract_msgs, extract_receipt, extract_portmove, extract_qualified
 REPO = os.environ.get("VERIF_REPO", "/repo")
 LEAN = os.path.join(HERE, "..", "lean")
 CMP = "statime/src/bmc/dataset_comparison.rs"
@@ -23,6 +23,7 @@ BMCA = "statime/src/bmc/bmca.rs"
 MSG = "statime/src/datastructures/messages/mod.rs"
 PORT = "statime/src/port/mod.rs"
 PBMCA = "statime/src/port/bmca.rs"
+FML = "statime/src/bmc/foreign_master.rs"
 
 # (name, file, old, new, expect) — expect: "break" or "hold"
 MUTANTS = [
@@ -99,6 +100,11 @@ MUTANTS = [
      "                PortState::Listening | PortState::Slave(_) | PortState::Master | PortState::Passive => {\n                    self.set_forced_port_state(PortState::Passive)\n                }\n                PortState::Faulty => {}", "break"),
     ("port move: slave-only Master keeps running", PBMCA, "                        PortState::Listening | PortState::Faulty => { /* do nothing */ }\n                        PortState::Slave(_) | PortState::Passive | PortState::Master => {",
      "                        PortState::Listening | PortState::Faulty | PortState::Master => { /* do nothing */ }\n                        PortState::Slave(_) | PortState::Passive => {", "break"),
+    ("qualified: cut-off through a named constant and '>' (seed C06-8)", FML, "        if announce_message.steps_removed >= 255 {", "        if announce_message.steps_removed > MAX_ANNOUNCE_MESSAGES as u16 {", "degrade"),
+    ("qualified: stepsRemoved 255 accepted", FML, "        if announce_message.steps_removed >= 255 {", "        if announce_message.steps_removed > 255 {", "break"),
+    ("qualified: cut-off at 256", FML, "        if announce_message.steps_removed >= 255 {", "        if announce_message.steps_removed >= 256 {", "break"),
+    ("qualified: duplicate sequence number rejected only beyond half range + 1", FML, "wrapping_sub(last_sequence_id) >= u16::MAX / 2 {", "wrapping_sub(last_sequence_id) > u16::MAX / 2 {", "break"),
+    ("qualified: own-clock rule dropped", FML, "        if source_identity.clock_identity == self.own_port_identity.clock_identity {\n            return false;\n        }\n", "", "break"),
     ("announce: leap flags crossed", MSG, "leap59: time_properties_ds.leap_indicator == LeapIndicator::Leap59,\n            leap61: time_properties_ds.leap_indicator == LeapIndicator::Leap61,",
      "leap59: time_properties_ds.leap_indicator == LeapIndicator::Leap61,\n            leap61: time_properties_ds.leap_indicator == LeapIndicator::Leap59,", "break"),
     ("announce: traceable flags crossed", MSG, "time_tracable: time_properties_ds.time_traceable,\n            frequency_tracable: time_properties_ds.frequency_traceable,",
@@ -127,7 +133,7 @@ example : Generated.cmpDispatch.isSome ∧ Generated.figure35Arms.isSome ∧ Gen
     Generated.figure34Arms.isSome ∧ Generated.asOrderingTable.isSome ∧ Generated.ofAnnounceTable.isSome ∧
     Generated.ofOwnTable.isSome ∧ Generated.accuracyComparedByOctet = some true ∧ Generated.decisionTable.isSome ∧ Generated.bestCompareTable.isSome ∧ Generated.findBestIsMaxBy = some true ∧
     Generated.announceFlagTable.isSome ∧ Generated.announceBodyTable.isSome ∧ Generated.timePropertiesTable.isSome ∧ Generated.syncCtor.isSome ∧ Generated.followUpCtor.isSome ∧
-    Generated.delayReqCtor.isSome ∧ Generated.delayRespCtor.isSome ∧ Generated.pdelayReqCtor.isSome ∧ Generated.pdelayRespCtor.isSome ∧ Generated.pdelayRespFuCtor.isSome ∧ Generated.receiptTimerTable.isSome ∧ Generated.portMoveTable.isSome ∧
+    Generated.delayReqCtor.isSome ∧ Generated.delayRespCtor.isSome ∧ Generated.pdelayReqCtor.isSome ∧ Generated.pdelayRespCtor.isSome ∧ Generated.pdelayRespFuCtor.isSome ∧ Generated.receiptTimerTable.isSome ∧ Generated.portMoveTable.isSome ∧ Generated.qualificationRules.isSome ∧
     Generated.announceBaseHeaderAsModelled = some true := by decide
 """
 
@@ -148,6 +154,7 @@ def main():
     sec11 = section("C11")
     sec10 = section("C10")
     sec08 = section("C08")
+    sec06 = section("C06")
     bad = 0
     try:
         for i, (name, rel, old, new, expect) in enumerate(MUTANTS):
@@ -163,13 +170,14 @@ def main():
                 return t
             out, deg = {}, []
             w = lambda n, t: out.__setitem__(n, t)
-            extract_cmp.run(read, w, deg); extract_bmca.run(read, w, deg); extract_announce.run(read, w, deg); extract_msgs.run(read, w, deg); extract_receipt.run(read, w, deg); extract_portmove.run(read, w, deg)
-            lean = ("import StatimeModel.Lemmas.CmpGen\nimport StatimeModel.Lemmas.DecisionGen\nimport StatimeModel.Lemmas.AnnounceGen\nimport StatimeModel.Lemmas.MsgGen\nimport StatimeModel.Lemmas.ReceiptGen\nimport StatimeModel.Lemmas.PortMoveGen\n" +
-                    body(out["DatasetComparison.lean"]) + body(out["StateDecision.lean"]) + body(out["AnnounceCtor.lean"]) + body(out["MsgCtors.lean"]) + body(out["ReceiptTimer.lean"]) + body(out["PortMove.lean"]) +
+            extract_cmp.run(read, w, deg); extract_bmca.run(read, w, deg); extract_announce.run(read, w, deg); extract_msgs.run(read, w, deg); extract_receipt.run(read, w, deg); extract_portmove.run(read, w, deg); extract_qualified.run(read, w, deg)
+            lean = ("import StatimeModel.Lemmas.CmpGen\nimport StatimeModel.Lemmas.DecisionGen\nimport StatimeModel.Lemmas.AnnounceGen\nimport StatimeModel.Lemmas.MsgGen\nimport StatimeModel.Lemmas.ReceiptGen\nimport StatimeModel.Lemmas.PortMoveGen\nimport StatimeModel.Lemmas.QualGen\n" +
+                    body(out["DatasetComparison.lean"]) + body(out["StateDecision.lean"]) + body(out["AnnounceCtor.lean"]) + body(out["MsgCtors.lean"]) + body(out["ReceiptTimer.lean"]) + body(out["PortMove.lean"]) + body(out["Qualification.lean"]) +
                     "\nnamespace Statime.C05\nopen Statime\n" + sec + "\nend Statime.C05\n" +
                     "\nnamespace Statime.C11\nopen Statime\n" + sec11 + "\nend Statime.C11\n" +
                     "\nnamespace Statime.C10\nopen Statime\n" + sec10 + "\nend Statime.C10\n" +
-                    "\nnamespace Statime.C08\nopen Statime\n" + sec08 + "\nend Statime.C08\n" + (COMPLETE if not old else ""))
+                    "\nnamespace Statime.C08\nopen Statime\n" + sec08 + "\nend Statime.C08\n" +
+                    "\nnamespace Statime.C06\nopen Statime\n" + sec06 + "\nend Statime.C06\n" + (COMPLETE if not old else ""))
             path = os.path.join(tmp, f"m{i}.lean")
             open(path, "w").write(lean)
             r = subprocess.run(["lake", "env", "lean", path], cwd=LEAN, capture_output=True, text=True)
